@@ -43,7 +43,17 @@ def _strategy(dll):
                         st.sampled_from([0, 1, 2, None]), st.sampled_from([1.0, 1.1, 1.2, 1.24, 0.0, 0.01]),
                         st.sampled_from([0.02, 0.06, 0.15, 0.27, 0.3]), size, size,
                         st.lists(st.one_of(send, inbound), max_size=6))
-    ops = st.one_of(rnd, rnd, pattern)
+    # second structured shape: an outbound transfer is in flight, an inbound session on a colliding number runs to its end
+    # (or is abandoned) meanwhile, then another outbound transfer to the same peer starts while the first is still running
+    def collide2(a, b, sess, stop, d1, d2, n1, n2, tail):
+        return [{"op": "send", "peer": b, "kind": "rts", "n": n1, "fate": {"f": "clean", "k": 0}, "gap": 0.01},
+                {"op": "inbound", "peer": a, "kind": "rts", "n": 130 if fd else 20, "session": sess, "stop_after": stop, "gap": d1},
+                {"op": "send", "peer": b, "kind": "rts", "n": n2, "fate": {"f": "clean", "k": 0}, "gap": d2}] + tail
+    pattern2 = st.builds(collide2, st.integers(0, 2), st.integers(0, 2), st.sampled_from([0, 0, 0, 1, 7, 8, 15]) if fd else st.just(0),
+                         st.sampled_from([None, None, 0, 1]), st.sampled_from([0.0, 0.001, 0.01]),
+                         st.sampled_from([0.02, 0.04, 0.08, 0.15, 0.3]), st.integers(300, 400) if fd else st.integers(60, 120), size,
+                         st.lists(st.one_of(send, inbound), max_size=4))
+    ops = st.one_of(rnd, rnd, pattern, pattern2)
     return st.fixed_dictionaries({
         "dll": st.just(dll), "ops": ops,
         "reply_lat": st.sampled_from([[0.001, 0.003], [0.001, 0.003], [0.02], [0.08]]),
